@@ -340,25 +340,27 @@ def gen_c18(env, tier):
 
 
 def run_wquantile(env, case):
-    """weighted quantile: two evaluations, the second with all weights multiplied by 3"""
-    r1 = env.run_xcube("C18", case)
+    """weighted quantile: the evaluation is repeated with all weights multiplied by 3, by 2^-30 and by 2^30 (exact
+    in binary floating point); every cell must come out the same (rescaling invariance)"""
+    env.run_xcube("C18", case)
     ev_ids = [t for t, m in env.rec.meta.items() if m["group"] == env.rec.group]
-    w2 = dict(case.weights)
-    w2["w"] = [x * 3 for x in w2["w"]]
-    c2 = cb.Case(case.dims, case.ishape, case.fact, w2, case.ignore, case.fmt, case.func, case.p)
-    rec2 = cb.CubeRecorder()
-    saved, env.rec = env.rec, rec2
-    try:
-        env.run_xcube("C18", c2)
-    finally:
-        env.rec = saved
     by_tid = {e["tid"]: e for e in env.rec.events}
-    for t, e2 in zip(ev_ids, rec2.events):
-        e1 = by_tid[t]
-        for q, (a, b) in enumerate(zip(e1["cells"], e2["cells"]), 1):
-            fa, fb = env.rec.floats[(t, q)], rec2.floats[(e2["tid"], q)]
-            same = (np.isnan(fa) and np.isnan(fb)) or (not np.isnan(fa) and not np.isnan(fb) and abs(fa - fb) <= 1e-9 * max(1, abs(fa)))
-            a["same2"] = bool(same) and a["miss"] == b["miss"]
+    for factor in (3, Fraction(1, 2 ** 30), 2 ** 30):
+        w2 = dict(case.weights)
+        w2["w"] = [x * factor for x in w2["w"]]
+        c2 = cb.Case(case.dims, case.ishape, case.fact, w2, case.ignore, case.fmt, case.func, case.p)
+        rec2 = cb.CubeRecorder()
+        saved, env.rec = env.rec, rec2
+        try:
+            env.run_xcube("C18", c2)
+        finally:
+            env.rec = saved
+        for t, e2 in zip(ev_ids, rec2.events):
+            e1 = by_tid[t]
+            for q, (a, b) in enumerate(zip(e1["cells"], e2["cells"]), 1):
+                fa, fb = env.rec.floats[(t, q)], rec2.floats[(e2["tid"], q)]
+                same = (np.isnan(fa) and np.isnan(fb)) or (not np.isnan(fa) and not np.isnan(fb) and abs(fa - fb) <= 1e-9 * max(1, abs(fa)))
+                a["same2"] = bool(a["same2"]) and bool(same) and a["miss"] == b["miss"]
 
 
 def gen_c14(env, tier):
